@@ -43,16 +43,18 @@ def scan : List W → Nat → Int → Nat → List W × Nat
     let r := scan ws (i + 1) m' flag'
     (w' :: r.1, r.2)
 
+/-- `s.servers[flag].CurrentWeight -= s.totalWeight; return s.servers[flag]` -/
+def charge (bs : List W) (f : Nat) (total : Int) : List W × Option String :=
+  match bs[f]? with
+  | none => (bs, none)   -- unreachable: flag < length
+  | some w => (bs.set f { w with cw := w.cw - total }, some w.server)
+
 /-- `next()`: `none` when there is no server (Go returns nil) -/
 def next (ws : List W) (total : Int) : List W × Option String :=
   match ws with
   | [] => ([], none)
   | [w] => ([w], some w.server)
-  | _ =>
-    let (ws', flag) := scan ws 0 0 0
-    match ws'[flag]? with
-    | none => (ws', none)   -- unreachable: flag < length
-    | some w => (ws'.set flag { w with cw := w.cw - total }, some w.server)
+  | _ => charge (scan ws 0 0 0).1 (scan ws 0 0 0).2 total
 
 def total (ws : List W) : Int := (ws.map (·.weight)).sum
 
